@@ -8,7 +8,8 @@ void *radix_alloc(size_t n);
 void radix_free(void *p, size_t n);
 void radix_val_ctor(void *p); // a value object came into existence at p / its destructor runs (mode 0 only)
 void radix_val_dtor(void *p);
-void radix_arg_moved(void); // insert()/find_or_insert() moved from an lvalue argument
+void radix_arg_moved(void);
+void radix_evil_addr(void); // the tree applied unary & to a value whose type overloads it // insert()/find_or_insert() moved from an lvalue argument
 // instrumented glue
 // mode 0: value type with a user-provided constructor (key, seq, check) and destructor, both reporting to the harness;
 // mode 1: the plain aggregate RVal, inserted WITHOUT constructor arguments (value-initialised), filled in by the user afterwards;
